@@ -375,6 +375,8 @@ def main(argv=None):
             continue
         model = SV.model_for(o)
         rp = replay(prop, o, model, tier)
+        if rp.get("crashed") or "no verdict" in str(rp.get("detail")) or "driver failed" in str(rp.get("detail")):
+            print("note: replay driver did not complete for %s: %s" % (o.name, str(rp.get("detail"))[:200]))
         fn = os.path.join(ROOT, "replays", prop, re.sub(r"[^A-Za-z0-9_.@#\[\]-]+", "_", o.name)[-150:] + ".json")
         rec = {"property": prop, "obligation": o.name, "kind": o.kind, "line": o.line, "info": o.info,
                "solver": {"result": r["result"], "backend": r["backend"], "seconds": r["seconds"]},
